@@ -830,6 +830,26 @@ def bitop(ex, st, op, va, vb, rct):
     raise ExtractionError(f'{ex.unit}: bit operation {op} on symbolic operands not modelled')
 
 
+def _walk_nodes(n):
+    if isinstance(n, dict):
+        yield n
+        for c in n.get('inner', []) or []:
+            yield from _walk_nodes(c)
+
+
+SCALE_KEYS = ('Meter', 'ElectronVolt', 'Hertz')      # every key a unit-scale table is built with or asked for in the repository
+
+
+def copy_scale_table(ex, st, dst, src):
+    """dst (a member path) becomes a copy of the table object src: one scalar per key of the universe"""
+    for key in SCALE_KEYS:
+        sp = f'{src}[{key}]'
+        if sp not in st.scal:
+            ex.new_scalar(st, sp, FLOAT)
+        st.scal[f'{dst}[{key}]'] = st.scal[sp]
+        ex.logw(('s', f'{dst}[{key}]'))
+
+
 def construct(ex, n, st, ct):
     """CXXConstructExpr of non-POD class types"""
     k = class_kind(ct.name)
@@ -844,12 +864,25 @@ def construct(ex, n, st, ct):
                 return v
         return Opaque('string')
     if k == 'map':
-        for a in args:
-            try:
-                ex.ev(a, st)
-            except ExtractionError:
-                pass
-        return Opaque('map')        # unit-scale tables are not read by any unit under contract except through literal keys
+        # unit-scale tables (std::map<std::string, T> with literal keys): an object with one scalar per key, `<name>[<key>]`.
+        # Built from a braced list of {"Key", value} pairs, by copy from another table, or empty.
+        pairs = [x for x in _walk_nodes(n) if x.get('kind') == 'CXXConstructExpr' and 'std::pair<' in x.get('type', {}).get('qualType', '') and len(x.get('inner', [])) == 2]
+        if len(args) == 1 and not pairs and parse_type(args[0].get('type')).kind == 'class' and class_kind(parse_type(args[0].get('type')).name) == 'map':
+            src = ex.ev_obj(args[0], st)
+            if isinstance(src, ObjRef):
+                return src                                   # copy: same contents, the holder copies key by key (store_field)
+            return Opaque('map')
+        ex.tmpcount = getattr(ex, 'tmpcount', 0) + 1
+        name = f'tmp:map{ex.tmpcount}'
+        for pr in pairs:
+            key = find_string_literal(pr['inner'][0])
+            if key is None:
+                raise ExtractionError(f'{ex.unit}: unit-scale table with a non-literal key (line {ex.curline})')
+            v = ex.ev(pr['inner'][1], st)
+            st.scal[f'{name}[{key}]'] = RealV(real(v), FLOAT)
+            st.scal.setdefault(f'{name}.keys', Opaque('keys:'))
+            st.scal[f'{name}.keys'] = Opaque(st.scal[f'{name}.keys'].what + key + ',')
+        return ObjRef(name, ct.name)
     if '__normal_iterator' in ct.name or 'iterator' in ct.name.split('<')[0]:
         if len(args) == 1:
             return ex.ev(args[0], st)
